@@ -259,7 +259,8 @@ class RunBundler:
             coros.append(self._cache_describe(obj))
         elif collect and obj not in self._describe_collect_cache:
             coros.append(self._cache_describe_collect(obj))
-        if obj not in self._config_desc_cache:
+        # (both caches: an interruption can cancel the gather below after only one of them was filled)
+        if obj not in self._config_desc_cache or obj not in self._config_values_cache:
             coros.append(self._cache_describe_config(obj))
             coros.append(self._cache_read_config(obj))
         await asyncio.gather(*coros)
